@@ -89,7 +89,12 @@ async def execute(net, hyg, plan):
     if plan.get("noanon"):
         login = ALICE
         users = lambda base: [aioftp.User("alice", "pw", base_path=base)]  # noqa: E731
-    world = W.World(net, tree={"/f.bin": b"x" * 5000}, data_ports=conf, host=host, users=users)
+    # data_ports is documented as an iterable: a list, a range, or something that can be walked only once
+    shape = plan.get("ports_as", "list")
+    ports_arg = {"list": lambda: list(conf), "tuple": lambda: tuple(conf), "generator": lambda: (p_ for p_ in conf),
+                 "iterator": lambda: iter(conf), "map": lambda: map(int, [str(p_) for p_ in conf]),
+                 "range": lambda: range(conf[0], conf[-1] + 1) if conf else range(0)}[shape]()
+    world = W.World(net, tree={"/f.bin": b"x" * 5000}, data_ports=ports_arg, host=host, users=users)
     await world.start()
     server = world.server
     for port, plan_errs in (plan.get("faults") or {}).items():
@@ -344,6 +349,12 @@ def gen_cases(tier, seed):
             cases.append({"kind": "single", "seed": seed, "plan": {"n": n, "scripts": [TEMPLATES[name]], "yields": [1, 1]}})
             cases.append({"kind": "single", "seed": seed, "plan": {"n": n, "scripts": [TEMPLATES[name], TEMPLATES["hold"]],
                                                                    "offsets": [0.003, 0], "yields": [2, 1]}})
+    # the configured ports handed over in other iterable shapes
+    for shape in ("tuple", "generator", "iterator", "map", "range"):
+        for name in ("retr", "two") if tier == "quick" else ("retr", "two", "epsv2", "hold"):
+            for n in (1, 3):
+                cases.append({"kind": "single", "seed": seed, "plan": {"n": n, "ports_as": shape, "scripts": [TEMPLATES[name], TEMPLATES["retr"]],
+                                                                       "offsets": [0, 0.002], "yields": [1, 1]}})
     # sessions that lose their user by a rejected second USER / PASS while holding a listener
     for name in sorted(NOANON):
         for n in (1, 2):
